@@ -69,7 +69,7 @@ fn query_bytes(q: &Value) -> Vec<u8> {
     let s = SESSION.to_be_bytes();
     match q["kind"].as_str().unwrap() {
         "reset" => vec![v, 2, 0, 0, 0, 0, 0, 8],
-        "serial_ok" => vec![v, 1, s[0], s[1], 0, 0, 0, 12, 0, 0, 0, 5],
+        "serial_ok" => vec![v, 1, s[0], s[1], 0, 0, 0, 12, 0, 0, 0, 4],
         "serial_unknown" => vec![v, 1, s[0], s[1], 0, 0, 0, 12, 0, 0, 0x30, 0x39],
         "badlen_reset" => vec![v, 2, 0, 0, 0, 0, 0, 12],
         "badlen_serial" => vec![v, 1, s[0], s[1], 0, 0, 0, 8],
@@ -107,13 +107,27 @@ fn parse_out(bytes: &[u8]) -> Vec<Entry> {
             break;
         }
         match (typ, &mut open) {
-            (3, None) => open = Some((ver, 0)),
+            (3, None) => {
+                if sess != SESSION { res.push(Entry::Malformed(format!("cache response for session {sess}, the source's is {SESSION}"))); }
+                open = Some((ver, 0))
+            }
             (4 | 6 | 9 | 11, Some((_, n))) => *n += 1,
             (7, Some((v, n))) => {
-                res.push(if *n == 0 { Entry::Diff(*v) } else if *n == N_ITEMS_FOR(*v) { Entry::Full(*v) } else { Entry::Malformed(format!("response with {n} items")) });
+                // the End of Data names the source's current state (session, serial 5), whatever the client asked with
+                let serial = u32::from_be_bytes([bytes[i + 8], bytes[i + 9], bytes[i + 10], bytes[i + 11]]);
+                if sess != SESSION || serial != 5 {
+                    res.push(Entry::Malformed(format!("end of data names session {sess} serial {serial}, the source is at session {SESSION} serial 5")));
+                }
+                res.push(if *n == 1 { Entry::Diff(*v) } else if *n == N_ITEMS_FOR(*v) { Entry::Full(*v) } else { Entry::Malformed(format!("response with {n} items")) });
                 open = None;
             }
-            (0, None) => res.push(Entry::Notify),
+            (0, None) => {
+                let serial = u32::from_be_bytes([bytes[i + 8], bytes[i + 9], bytes[i + 10], bytes[i + 11]]);
+                if sess != SESSION || serial != 5 {
+                    res.push(Entry::Malformed(format!("serial notify names session {sess} serial {serial}, the source is at session {SESSION} serial 5")));
+                }
+                res.push(Entry::Notify)
+            }
             (8, None) => res.push(Entry::CReset(ver)),
             (10, None) => res.push(Entry::Err(ver, sess)),
             (t, Some(_)) => {
@@ -165,7 +179,9 @@ fn run_script(queries: &Value, script: &[(String, usize)], flush_rest: bool) -> 
     let _ = N_ITEMS;
     let src = Source(Arc::new(Mutex::new(SrcState {
         evlog: None,
-        hist: vec![Version { session: 1, serial: 5, data: vec![(0, "o4".into(), 0), (0, "o6".into(), 0), (1, "k1".into(), 0), (2, "c1".into(), 2)] }],
+        // serial 4 lacks the IPv6 origin, so a serial query for 4 gets a diff of exactly one announcement (carried by every version)
+        hist: vec![Version { session: 1, serial: 4, data: vec![(0, "o4".into(), 0), (1, "k1".into(), 0), (2, "c1".into(), 2)] },
+                   Version { session: 1, serial: 5, data: vec![(0, "o4".into(), 0), (0, "o6".into(), 0), (1, "k1".into(), 0), (2, "c1".into(), 2)] }],
         timing: 1, window: 1, serial_base: 0, calls: 0, pending: vec![], ready: true, cut_at: None, dead: Default::default(),
     })));
     let wire = Arc::new(Mutex::new(Wire::default()));
@@ -270,6 +286,23 @@ pub fn replay(args: &[String]) {
                     s.violation("out:answers", format!("responses {got:?}, specification {want:?} (script {script:?})"), c.clone());
                 } else if closes && (got.len() > want.len() || got[..] != want[..got.len()]) {
                     s.violation("out:answers", format!("responses {got:?} are not a prefix of {want:?}"), c.clone());
+                }
+                // A notification issued while the connection is open and its version is known (a data response has been written)
+                // must show up as a Serial Notify once the server is idle; a burst may collapse into one, never into none.
+                {
+                    let mut version_known = false;
+                    let mut owed = false;
+                    for e in &r.events {
+                        match (e["ev"].as_str().unwrap_or(""), e["kind"].as_str().unwrap_or("")) {
+                            ("out", "full") | ("out", "diff") | ("out", "creset") => version_known = true,
+                            ("out", "notify") => owed = false,
+                            ("notify", _) => if version_known { owed = true },
+                            _ => {}
+                        }
+                    }
+                    if owed && !r.ended && !closes && c["closed"] == false {
+                        s.violation("out:notify-lost", format!("a notification was issued on an open, idle connection and no Serial Notify followed (script {script:?})"), c.clone());
+                    }
                 }
                 if notifies > n_notify {
                     s.violation("out:notify-count", format!("{notifies} Serial Notify PDUs for {n_notify} notifications"), c.clone());
